@@ -176,6 +176,20 @@ class Ctx:
         amap = dict(zip(printed, blocks))
         for n in names:
             self.obligations.append((n, True, amap.get(n, ['(not printed)'])))
+        if self.tier == 'thorough':
+            # independent re-check of the compiled property file and everything it depends on
+            mod = 'Spectrum.' + vfile[:-2].replace('/', '.')
+            try:
+                pr = subprocess.run(['timeout', '2400', 'coqchk', '-silent', '-o', '-R', COQ, 'Spectrum', mod], capture_output=True, text=True)
+                txt = pr.stdout + pr.stderr
+                ax = re.findall(r'^\s{4}(\S+)\s*$', txt.split('* Axioms:')[1].split('* Constants')[0], re.M) if '* Axioms:' in txt else []
+                self.extra['coqchk'] = {'module': mod, 'exit': pr.returncode, 'axioms_of_all_loaded_libraries': ax,
+                                        'nothing_relies_on_type_in_type': ('<none>' in txt.split('type-in-type:')[1][:20]) if 'type-in-type:' in txt else None}
+                self.checker_cmds.append('coqchk -silent -o -R coq Spectrum %s' % mod)
+                if pr.returncode != 0:
+                    self.broken.append({'theorem': 'coqchk:%s' % mod, 'where': vfile, 'log': txt[-1500:]})
+            except Exception as e:  # pragma: no cover
+                self.extra['coqchk'] = {'module': mod, 'error': repr(e)}
         forbidden = grep_forbidden()
         if forbidden:
             self.broken.append({'theorem': 'development hygiene', 'where': forbidden[0], 'log': '\n'.join(forbidden[:20])})
